@@ -108,9 +108,9 @@ theorem logData_plain (c : Cfg) (d : Bytes) (s : S) (he : s.err = none) (hst : c
   simp only at he hm hst
   subst he hm hst
   cases d with
-  | nil => simp [logData, guard, log_g0]
+  | nil => simp [logData, mainCopy_id, guard, log_g0]
   | cons x xs =>
-    simp only [logData, guard, log_g0, log_g1, log_g2, log_g5, log_g6, log_g7, log_g8, toggle_g0, evOn,
+    simp only [logData, mainCopy_id, guard, log_g0, log_g1, log_g2, log_g5, log_g6, log_g7, log_g8, toggle_g0, evOn,
       emit, setP]
     cases hasLog <;> cases isStdout <;> cases outEv <;> cases errEv <;> simp
 
@@ -122,9 +122,9 @@ theorem logData_cap (c : Cfg) (d : Bytes) (s : S) (he : s.err = none) (hst : c.s
   simp only at he hm hst hc
   subst he hm hst
   cases d with
-  | nil => simp [logData, guard, log_g0]
+  | nil => simp [logData, mainCopy_id, guard, log_g0]
   | cons x xs =>
-    simp only [logData, guard, log_g0, log_g1, log_g2, log_g5, log_g6, log_g7, log_g8, toggle_g0, evOn,
+    simp only [logData, mainCopy_id, guard, log_g0, log_g1, log_g2, log_g5, log_g6, log_g7, log_g8, toggle_g0, evOn,
       emit, setP]
     simp [hc]
 
